@@ -119,6 +119,14 @@ CHECKS = {
         "text": "Removal calls (unschedule, remove_handler_for_watch, unschedule_all, stop) are issued by API threads and re-entrantly from handlers at schedule-generated positions of the event stream; for every removal that returned at t_R no callback of a removed (handler, watch) may begin after t_R unless a later registration was invoked before it, and every emitter instance of an unscheduled watch created before the call has finished and queues nothing after t_R.",
         "note": "Trusted: vlib/dsched substitutes. A callback in progress when the removal is invoked is not a violation.",
     },
+    "C13": {
+        "engine": "dsched",
+        "category": "fault_enumeration",
+        "design_ref": "DESIGN.md §4 C13",
+        "technique": "model-based (stateful) property testing: generated API call sequences with an emitter failure injected at every position, executed on the real BaseObserver and compared step by step with a reference map model; exhaustive for short sequences, Hypothesis beyond",
+        "text": "Call sequences over 8 watches (2 paths x recursive x filter, equal ones on purpose) and 3 handlers, with schedule() calls whose emitter construction or start is made to fail, run single-threaded under the deterministic scheduler; after every call the emitters must be exactly the model's watches and a unique marker queued through every live emitter must reach exactly the model's handler set; unknown watches/handlers must raise KeyError and change nothing. All sequences of length <= 3/4 over a 1-watch/2-handler universe (x with/without a leading start) are enumerated.",
+        "note": "The model keys are plain (path, recursive, filter) tuples, independent of ObservedWatch.__eq__. Single application thread; interleavings belong to C04-C06.",
+    },
 }
 
 ALL = [f"C{i:02d}" for i in range(1, 21)]
